@@ -42,12 +42,13 @@ def main():
                 rc, out = sh('git apply -3 %s/patch.diff' % d, cwd=wt)
             if rc:
                 print(pid, x, 'PATCH DOES NOT APPLY to HEAD:', out[:300]); continue
-            sh('git diff -- tdda > /tmp/_intake_patch.diff', cwd=wt)
+            tmpd = '/tmp/_intake_%d_%s.diff' % (os.getpid(), x)
+            sh('git diff -- tdda > ' + tmpd, cwd=wt)
             rc1, out1 = sh(env)
             ran.append('patched tree: demo exit %d' % rc1)
             missing = suite(wt)
             ran.append('patched tree: pinned suite, %d of 218 stable tests missing' % len(missing))
-            sh('git checkout -- . && git apply /tmp/_intake_patch.diff && git diff --stat', cwd=wt)
+            sh('git checkout -- . && git apply ' + tmpd + ' && git diff --stat', cwd=wt)
             ok = (rc0 == 0 and rc1 != 0 and not missing)
             print(pid, x, 'CONFIRMED' if ok else 'REJECTED', ran, missing[:3])
             if rc0 != 0:
@@ -55,7 +56,7 @@ def main():
             if ok:
                 dest = '/verif/seeded/%s-%s' % (pid, x)
                 os.makedirs(dest, exist_ok=True)
-                shutil.copy('/tmp/_intake_patch.diff', dest + '/patch.diff')
+                shutil.copy(tmpd, dest + '/patch.diff')
                 shutil.copy(d + '/demo.py', dest + '/demo.py')
                 meta2 = {'property': pid, 'summary': meta.get('summary'), 'needs': meta.get('needs'),
                          'agent_ran': meta.get('ran'),
